@@ -15,7 +15,7 @@ for c in $commits; do
 done
 /venv/bin/python -m pytest -q -p no:cacheprovider --timeout=900 tests 2>&1 | tail -1
 cd /verif || exit 2
-git merge --no-edit b-$n 2>&1 | tail -3
+git merge --no-edit -X theirs b-$n 2>&1 | tail -3
 # rewrite the agents' commit hashes to the cherry-picked ones
 if [ -f /tmp/w/hashmap.txt ]; then
   while read old new; do
